@@ -180,6 +180,15 @@ behaviour read_behaviour(long bits)
     b.supports_window_title_bel = (bits & 4) != 0;
     b.supports_window_title_st = (bits & 8) != 0;
     b.unicode_in_all_charsets = (bits & 16) != 0;
+    // the seven capability flags the current library declares but never consults: bit set = the non-default value.
+    // The model ignores them, so a change that starts honouring one is seen by the correspondence at once.
+    b.supports_cha = b.supports_cha != ((bits & 32) != 0);
+    b.supports_cha_default = b.supports_cha_default != ((bits & 64) != 0);
+    b.supports_vpa = b.supports_vpa != ((bits & 128) != 0);
+    b.supports_vpa_default = b.supports_vpa_default != ((bits & 256) != 0);
+    b.supports_cup_default_row = b.supports_cup_default_row != ((bits & 512) != 0);
+    b.supports_cup_default_column = b.supports_cup_default_column != ((bits & 1024) != 0);
+    b.supports_cup_default_all = b.supports_cup_default_all != ((bits & 2048) != 0);
     return b;
 }
 
